@@ -18,4 +18,5 @@ PROPS = {
     "C03": dict(pkg="c03", run="^TestC03$", shards=8, timeout_quick=600, timeout_thorough=2400, net=103),
     "C15": dict(pkg="c15", run="^TestC15$", shards=8, timeout_quick=600, timeout_thorough=2400, net=115),
     "C20": dict(pkg="c20", run="^TestC20$", shards=4, timeout_quick=600, timeout_thorough=2400, net=120),
+    "C10": dict(pkg="c10", run="^TestC10$", shards=8, timeout_quick=600, timeout_thorough=2400, net=110),
 }
